@@ -17,3 +17,29 @@ Theorem C18_obj_item_entry :
        rmap (fun row : list E => map (fun j : nat => nth j row d) (seq 0 k)) (np_item R i).
 Proof. exact obj_item_entry. Qed.
 Print Assumptions C18_obj_item_entry.
+
+Theorem C18_obj_concat_entries :
+  forall (E : Type) (d : E) (k : nat) (Rs : list (list (list E))),
+       Rs <> [] -> obj_concat E (map (cols E d k) Rs) = cols E d k (concat Rs).
+Proof. exact obj_concat_entries. Qed.
+Print Assumptions C18_obj_concat_entries.
+
+Theorem C18_obj_eqb_iff :
+  forall (E : Type) (eqb : E -> E -> bool),
+       (forall x y : E, eqb x y = true <-> x = y) ->
+       forall o o' : obj E, length o = length o' -> obj_eqb E eqb o o' = true <-> o = o'.
+Proof. exact obj_eqb_iff. Qed.
+Print Assumptions C18_obj_eqb_iff.
+
+Theorem C18_varlen_rows :
+  forall blocks : list (list (list Z)),
+       let W :=
+         fold_left Z.max
+           (map (fun b : list (list Z) => match b with
+                                          | [] => 0
+                                          | r :: _ => zlen r
+                                          end) blocks) 0 in
+       varlen_concat blocks =
+       concat (map (map (fun r : list Z => repeat 0 (Z.to_nat (W - zlen r)) ++ r)) blocks).
+Proof. exact varlen_rows. Qed.
+Print Assumptions C18_varlen_rows.
